@@ -231,6 +231,23 @@ func (w *vC05World) step(op int, tgt string) bool {
 		}
 		inv.revokedAt = len(w.gens)
 		w.add(rec, "")
+	case 12: // one record that removes the account and revokes the newest live invite (what "stop sharing" sends)
+		inv := w.liveInvite(true)
+		if inv == nil {
+			inv = w.liveInvite(false)
+		}
+		if inv == nil {
+			return false
+		}
+		rk, mk, raw := vC05Fresh()
+		res, err := own.BuildBatchRequest(BatchRequestPayload{
+			Removals:      AccountRemovePayload{Identities: []crypto.PubKey{tpub}, Change: ReadKeyChangePayload{MetadataKey: mk, ReadKey: rk}},
+			InviteRevokes: []string{inv.rec}})
+		if err != nil {
+			return false
+		}
+		inv.revokedAt = len(w.gens)
+		w.add(res.Rec, raw)
 	}
 	return true
 }
@@ -381,10 +398,10 @@ func VerifC05Keys() {
 	w := vC05NewWorld()
 	w.check()
 	for i := 0; i < n; i++ {
-		op := rt.Choose(12)
+		op := rt.Choose(13)
 		tgt := "a"
 		switch op {
-		case 2, 3, 4, 5, 6, 7, 10:
+		case 2, 3, 4, 5, 6, 7, 10, 12:
 			tgt = []string{"a", "b"}[rt.Choose(2)]
 		}
 		if !w.step(op, tgt) {
